@@ -16,7 +16,7 @@ for t in gen_tables.py gen_code.py; do
   VERIF_REPO=$W python3 /verif/tools/$t > /tmp/refactor_tr.log 2>&1 || tr="$tr $t:FAILED($(tail -1 /tmp/refactor_tr.log | cut -c1-120))"
 done
 if [ -z "$tr" ]; then
-  ( cd /verif/lean && lake build UBidi.Props.C01Tie UBidi.Props.C19Tie UBidi.Props.C14 UBidi.Props.C15 2>&1 | grep -E "^error" | head -3 ) > /tmp/refactor_tie.log
+  ( cd /verif/lean && lake build UBidi.Props.C01Tie UBidi.Props.C02Tie UBidi.Props.C03Tie UBidi.Props.C11Tie UBidi.Props.C16Tie UBidi.Props.C19Tie UBidi.Props.C01TieRules UBidi.Props.C11TieRules UBidi.Props.C13Tie UBidi.Props.C14 UBidi.Props.C15 2>&1 | grep -E "^error" | head -3 ) > /tmp/refactor_tie.log
   [ -s /tmp/refactor_tie.log ] && tr="tie theorems: $(head -1 /tmp/refactor_tie.log | cut -c1-160)"
 fi
 python3 /verif/tools/gen_tables.py > /dev/null; python3 /verif/tools/gen_code.py > /dev/null
